@@ -114,8 +114,21 @@ def single_case(b: Batch, state, op, recursive, full, idx):
     return h
 
 
+# directed histories (regression corpus): events for changes made to a directory after it left the tree must never appear
+CORPUS = [
+    {"seed": 11, "recursive": True, "n_root": 0, "n_out": 0, "final_probes": False, "probe_p": 0.0, "delay": 0.1,
+     "script": [["mkdir", "root/a"], ["drain"], ["move_out", "root/a", "out/o9"], ["drain"], ["create", "out/o9/x"], ["write", "out/o9/x"], ["mkdir", "out/o9/d"], ["drain"]]},
+    {"seed": 12, "recursive": True, "n_root": 0, "n_out": 0, "final_probes": False, "probe_p": 0.0, "delay": 0.1,
+     "script": [["mkdir", "root/b"], ["mkdir", "root/a"], ["drain"], ["create", "root/a/f"], ["drain"], ["rename", "root/a", "root/b"], ["drain"],
+                ["move_out", "root/b", "out/o9"], ["drain"], ["create", "out/o9/g"], ["write", "out/o9/f"], ["drain"]]},
+    {"seed": 13, "recursive": True, "n_root": 0, "n_out": 0, "final_probes": False, "probe_p": 0.0, "delay": 0.1,
+     "script": [["makedirs", "root/a/b"], ["drain"], ["move_out", "root/a", "out/o9"], ["drain"], ["mkdir", "root/a"], ["drain"], ["create", "out/o9/b/x"],
+                ["create", "root/a/y"], ["drain"], ["rmtree", "out/o9"], ["drain"]]},
+]
+
+
 def plan(tier, seed, jobs):
-    specs = []
+    specs = [{"kind": "corpus", "budget_s": 60}]
     if tier == "quick":
         k = jobs
         for off in range(k):
@@ -149,12 +162,20 @@ def run_batch(spec):
                         continue
                     single_case(b, state, op, recursive, full, idx)
         b.count("single_case_space", idx + 1)
+    elif spec["kind"] == "corpus":
+        for cfg in CORPUS:
+            for full in (False, True):
+                for mode, rs in (("plain", None), ("small", 300)):
+                    c01.run_one(b, dict(cfg, full=full, mode=mode, read_size=rs), "C03", justify=fsjustify.justify)
+                    b.count("corpus_cases")
     elif spec["kind"] == "history":
         r = rng_for(spec["seed"], "C03", spec["j"])
         for n in range(spec["n"]):
             if b.expired():
                 break
             cfg = c01.make_cfg(r, spec["seed"] * 1000003 + spec["j"] * 10007 + n)
+            # operations inside directories after they left the tree: nothing of that may be reported (soundness)
+            cfg["out_ops"] = r.random() < 0.6
             if n % 3 == 0:
                 cfg["single_step"] = True
                 cfg["delay"] = 0.5
